@@ -847,7 +847,12 @@ func vtC05HistoryGen(r *rand.Rand, i int) (string, []int64) {
 		case k < 19:
 			in = append(in, 9)
 			in = append(in, g.pev(pu, -1)...)
-			in = append(in, g.pev(pu, -1)...)
+			if rsv := g.podRsv[pu]; rsv != 0 && r.Intn(3) == 0 {
+				delete(g.podReq, pu) // in-place resize: same reservation, other requests
+				in = append(in, g.pev(pu, rsv)...)
+			} else {
+				in = append(in, g.pev(pu, -1)...)
+			}
 		case k < 20 && !(style == "reserve" || r.Intn(6) == 0):
 			in = append(in, 10)
 			in = append(in, g.pev(pu, -1)...)
